@@ -664,3 +664,10 @@ Qed.
 Lemma seq_reinterpretation : forall u, 0 <= u < two64 ->
   - two63 <= to_i64 u < two63 /\ to_u64 (to_i64 u) = u.
 Proof. intros u H. split; [apply to_i64_range | apply to_u64_to_i64; exact H]. Qed.
+
+(** above the limit nothing unmarshals (so nothing passes Validator.Validate) *)
+Lemma oversize_rejected : forall bs, max_record_size < blen bs -> unmarshal_record bs = Err ERecordSize.
+Proof.
+  intros bs H. unfold unmarshal_record.
+  destruct (Z.ltb_spec max_record_size (blen bs)); [reflexivity | lia].
+Qed.
